@@ -632,7 +632,9 @@ type request struct {
 	Query   string              `json:"query"`
 	Header  map[string][]string `json:"header"`
 	Body    *string             `json:"body"`
-	Script  script              `json:"script"`
+	// ContentLength overrides the length net/http would derive from Body (-1: unknown, as for a chunked request)
+	ContentLength *int64 `json:"content_length"`
+	Script        script `json:"script"`
 	// call
 	Op     string `json:"op"`
 	Params any    `json:"params"`
@@ -787,6 +789,9 @@ func handle(req *request) (ans map[string]any) {
 		if req.Body != nil {
 			hr.Body = io.NopCloser(strings.NewReader(*req.Body))
 			hr.ContentLength = int64(len(*req.Body))
+			if req.ContentLength != nil {
+				hr.ContentLength = *req.ContentLength
+			}
 		} else {
 			hr.Body = http.NoBody
 		}
